@@ -79,11 +79,15 @@ impl World for StateWorld {
     }
     fn configs(&self, tier: Tier) -> Vec<Cfg> {
         let k = if tier == Tier::Quick { 5 } else { 6 };
-        [FL_LOCAL, FL_SYNC, FL_CHECKED, FL_SHARED, FL_SHARED_CHECKED].iter().map(|&flavour| Cfg { flavour, mode: 0, x: 0, y: 0, k }).collect()
+        let mut v: Vec<Cfg> = [FL_LOCAL, FL_SYNC, FL_CHECKED, FL_SHARED, FL_SHARED_CHECKED].iter().map(|&flavour| Cfg { flavour, mode: 0, x: 0, y: 0, k }).collect();
+        // mode 1: requested ids also come from another channel (ids ahead of this channel's)
+        v.push(Cfg { flavour: FL_LOCAL, mode: 1, x: 0, y: 0, k });
+        v.push(Cfg { flavour: FL_SHARED_CHECKED, mode: 1, x: 0, y: 0, k });
+        v
     }
     fn enum_configs(&self, tier: Tier) -> Vec<(Cfg, usize)> {
         let (k, d) = if tier == Tier::Quick { (2, 9) } else { (2, 12) };
-        vec![(Cfg { flavour: FL_CHECKED, mode: 0, x: 0, y: 0, k }, d), (Cfg { flavour: FL_SHARED_CHECKED, mode: 0, x: 0, y: 0, k }, d)]
+        vec![(Cfg { flavour: FL_CHECKED, mode: 0, x: 0, y: 0, k }, d), (Cfg { flavour: FL_SHARED_CHECKED, mode: 0, x: 0, y: 0, k }, d), (Cfg { flavour: FL_CHECKED, mode: 1, x: 0, y: 0, k }, d - 2)]
     }
     fn specs(&self, cfg: &Cfg) -> Vec<OpSpec> {
         let shared = cfg.flavour >= FL_SHARED;
@@ -91,10 +95,10 @@ impl World for StateWorld {
         vec![
             spec("send", 14, 0, 0),
             spec("close", if shared { 0 } else { 4 }, 0, 0),
-            spec("receive", 20, cfg.k, 4),
+            spec("receive", 20, cfg.k, if cfg.mode == 1 { 4 + FOREIGN as u8 } else { 4 }),
             spec("poll", 40, cfg.k, 2),
             spec("drop", 10, cfg.k, 0),
-            spec("try_receive", 8, 4, 0),
+            spec("try_receive", 8, if cfg.mode == 1 { 4 + FOREIGN as u8 } else { 4 }, 0),
             spec("clone_sender", h, 3, 0),
             spec("drop_sender", h, 3, 0),
             spec("clone_receiver", h, 3, 0),
@@ -122,7 +126,7 @@ impl World for StateWorld {
         }
     }
     fn cfg_desc(&self, cfg: &Cfg) -> String {
-        format!("state-broadcast flavour={} slots={}", flavour_name(cfg.flavour), cfg.k)
+        format!("state-broadcast flavour={} slots={}{}", flavour_name(cfg.flavour), cfg.k, if cfg.mode == 1 { " requested ids also from another channel" } else { "" })
     }
     fn class_names(&self) -> &'static [&'static str] {
         CLASS_NAMES
@@ -179,12 +183,69 @@ struct Model {
     rx_count: usize,
     handle_ops: u32,
     feedback: bool,
+    /// ids obtained from another channel (after 1, 2 and 4 publications there); mode 1 only
+    foreign: Vec<StateId>,
 }
+
+/// number of ids taken from the donor channel
+const FOREIGN: usize = 3;
+/// slot.num of a request with a foreign id is FOREIGN_BASE + its index
+const FOREIGN_BASE: u64 = 100;
 
 impl Model {
     fn latest(&self) -> i32 {
         self.pubs.len() as i32 - 1
     }
+    /// What a requested id (slot.num encoding) is known to denote, as bounds (lo, hi) on a
+    /// publication index: every publication <= lo has an id <= the requested one, every
+    /// publication > hi has a larger id. Own ids: lo == hi == the publication they came from.
+    /// Foreign ids are opaque; they are placed through the public `Ord` against the ids this
+    /// channel has reported so far (ids increase strictly, which is checked separately).
+    fn bounds(&self, num: u64) -> (i32, i32) {
+        if num < FOREIGN_BASE {
+            let q = num as i32 - 1;
+            return (q, q);
+        }
+        let x = self.foreign[(num - FOREIGN_BASE) as usize];
+        let mut lo = -1;
+        let mut hi = i32::MAX;
+        for (j, sid) in self.sids.iter().enumerate() {
+            if let Some(sid) = sid {
+                if *sid <= x {
+                    lo = lo.max(j as i32);
+                } else {
+                    hi = hi.min(j as i32 - 1);
+                }
+            }
+        }
+        (lo, hi)
+    }
+    fn request(&self, arg: u8, foreign_mode: bool) -> (StateId, u64) {
+        let n = self.seen.len() + if foreign_mode { self.foreign.len() } else { 0 };
+        let i = arg as usize % n;
+        if i < self.seen.len() {
+            (self.seen[i].0, (self.seen[i].1 + 1) as u64)
+        } else {
+            (self.foreign[i - self.seen.len()], FOREIGN_BASE + (i - self.seen.len()) as u64)
+        }
+    }
+}
+
+/// Ids of another state broadcast channel after 1, 2 and 4 publications, through the public API.
+fn foreign_ids() -> Vec<StateId> {
+    let donor: GenericStateBroadcastChannel<Noop, u8> = GenericStateBroadcastChannel::new();
+    let mut id = StateId::new();
+    let mut out = Vec::new();
+    for n in 1..=4 {
+        let _ = donor.send(0);
+        if let Some((next, _)) = donor.try_receive(id) {
+            id = next;
+        }
+        if n != 3 {
+            out.push(id);
+        }
+    }
+    out
 }
 
 fn run_m<M: RawMutex + 'static>(cfg: &Cfg, ops: &[Op], run: &mut Run) {
@@ -192,7 +253,8 @@ fn run_m<M: RawMutex + 'static>(cfg: &Cfg, ops: &[Op], run: &mut Run) {
     payload::reset();
     let shared = cfg.flavour >= FL_SHARED;
     let chan_owner: Chan<M> = if shared {
-        let (tx, rx) = sh::generic_state_broadcast_channel::<M, Tagged>();
+        let conv = if std::any::TypeId::of::<M>() == std::any::TypeId::of::<PlLock>() { retype(sh::state_broadcast_channel::<Tagged>()) } else { None };
+        let (tx, rx) = conv.unwrap_or_else(sh::generic_state_broadcast_channel::<M, Tagged>);
         Chan::S { tx: RefCell::new(vec![tx]), rx: RefCell::new(vec![rx]) }
     } else {
         Chan::B(GenericStateBroadcastChannel::new())
@@ -202,7 +264,12 @@ fn run_m<M: RawMutex + 'static>(cfg: &Cfg, ops: &[Op], run: &mut Run) {
     // slot.num = index of the publication the requested id denotes, +1 (0 = StateId::new())
     let mut slots: Vec<Slot<RFut<'_, M>>> = (0..k).map(|i| Slot::new(i as u8)).collect();
     let mut held: Vec<Tagged> = Vec::with_capacity(8);
-    let mut m = Model { pubs: Vec::new(), sids: Vec::new(), closed: false, newly_closed_seen: false, seen: vec![(StateId::new(), -1)], tx_count: 1, rx_count: 1, handle_ops: 0, feedback: false };
+    let mut m = Model { pubs: Vec::new(), sids: Vec::new(), closed: false, newly_closed_seen: false, seen: vec![(StateId::new(), -1)], tx_count: 1, rx_count: 1, handle_ops: 0, feedback: false, foreign: Vec::new() };
+    let foreign_mode = cfg.mode == 1;
+    if foreign_mode {
+        m.foreign = foreign_ids();
+        tls::alloc_reset();
+    }
     let mut snap = Snapshot::default();
     let mut order = Vec::new();
 
@@ -233,7 +300,10 @@ fn run_m<M: RawMutex + 'static>(cfg: &Cfg, ops: &[Op], run: &mut Run) {
         ($sid:expr, $v:expr, $q:expr, $req:expr, $what:expr) => {{
             let sid: StateId = $sid;
             let v: Tagged = $v;
-            let q: i32 = $q;
+            let num: u64 = $q;
+            let (q, q_hi) = m.bounds(num);
+            let own = num < FOREIGN_BASE;
+            let _ = q_hi;
             let req: StateId = $req;
             let latest = m.latest();
             if latest < 0 {
@@ -263,10 +333,10 @@ fn run_m<M: RawMutex + 'static>(cfg: &Cfg, ops: &[Op], run: &mut Run) {
                     }
                 }
                 m.sids[latest as usize] = Some(sid);
-                if q + 1 < latest {
+                if own && q + 1 < latest {
                     run.class(CL_SKIPPED_STATE);
                 }
-                if q >= 0 {
+                if own && q >= 0 {
                     m.feedback = true;
                 }
                 if m.feedback && m.pubs.len() >= 2 {
@@ -373,7 +443,7 @@ fn run_m<M: RawMutex + 'static>(cfg: &Cfg, ops: &[Op], run: &mut Run) {
             }
             OP_MK => match next_where(&slots, op.a, |s| !s.alive()) {
                 Some(s) => {
-                    let (req, q) = m.seen[op.b as usize % m.seen.len()];
+                    let (req, num) = m.request(op.b, foreign_mode);
                     let f = run.call("receive()", || match chan {
                         Chan::B(c) => Some(RFut::B(c.receive(req))),
                         Chan::S { rx, .. } => rx.borrow().last().map(|r| RFut::S(r.receive(req))),
@@ -381,8 +451,8 @@ fn run_m<M: RawMutex + 'static>(cfg: &Cfg, ops: &[Op], run: &mut Run) {
                     match f {
                         Some(Some(f)) => {
                             slots[s].install(f);
-                            slots[s].num = (q + 1) as u64;
-                            run.note(|| format!("create receive future in slot {} for id of publication #{}", s, q));
+                            slots[s].num = num;
+                            run.note(|| if num < FOREIGN_BASE { format!("create receive future in slot {} for id of publication #{}", s, num as i32 - 1) } else { format!("create receive future in slot {} for foreign id {:?}", s, req) });
                         }
                         _ => run.noops += 1,
                     }
@@ -392,8 +462,9 @@ fn run_m<M: RawMutex + 'static>(cfg: &Cfg, ops: &[Op], run: &mut Run) {
             OP_POLL => match next_where(&slots, op.a, |s| s.pollable()) {
                 Some(s) => {
                     let was_pending = slots[s].pending();
-                    let q = slots[s].num as i32 - 1;
-                    let req = m.seen.iter().find(|(_, p)| *p == q).map(|(id, _)| *id);
+                    let num = slots[s].num;
+                    let (q, q_hi) = m.bounds(num);
+                    let req = if num < FOREIGN_BASE { m.seen.iter().find(|(_, p)| *p == q).map(|(id, _)| *id) } else { Some(m.foreign[(num - FOREIGN_BASE) as usize]) };
                     match slots[s].poll(op.b, run) {
                         Some(Poll::Ready(v)) => {
                             run.note(|| format!("poll slot {} waker {} -> Ready({})", s, op.b, v.as_ref().map(|(sid, t)| format!("{:?}, v{}", sid, t.id)).unwrap_or("None".into())));
@@ -401,13 +472,14 @@ fn run_m<M: RawMutex + 'static>(cfg: &Cfg, ops: &[Op], run: &mut Run) {
                                 Some((sid, t)) => {
                                     // the requested id may have been evicted from `seen`; it is still a valid lower bound
                                     let req = req.unwrap_or_else(StateId::new);
-                                    delivered!(sid, t, q, req, format!("receive in slot {}", s));
+                                    delivered!(sid, t, num, req, format!("receive in slot {}", s));
                                 }
                                 None => {
                                     if !m.closed {
                                         run.violate("C11", "closed-reported-while-open", format!("receive in slot {} completed with None although the channel is open", s));
-                                    } else if q < m.latest() {
-                                        run.violate("C13", "latest-state-withheld", format!("receive in slot {} completed with None after close although publication #{} is newer than the requested #{}", s, m.latest(), q));
+                                    } else if q_hi < m.latest() {
+                                        // C11: "receivers still get all values accepted before the close"
+                                        run.violate2("C13", "C11", "latest-state-withheld", format!("receive in slot {} completed with None after close although publication #{} is newer than the requested #{}", s, m.latest(), q_hi));
                                     } else {
                                         run.class(CL_NONE_AFTER_CLOSE);
                                     }
@@ -416,8 +488,8 @@ fn run_m<M: RawMutex + 'static>(cfg: &Cfg, ops: &[Op], run: &mut Run) {
                         }
                         Some(Poll::Pending) => {
                             run.note(|| format!("poll slot {} waker {} -> Pending", s, op.b));
-                            if q < m.latest() {
-                                run.violate("C13", "newer-state-withheld", format!("receive in slot {} returned Pending although publication #{} is newer than the requested #{}", s, m.latest(), q));
+                            if q_hi < m.latest() {
+                                run.violate("C13", "newer-state-withheld", format!("receive in slot {} returned Pending although publication #{} is newer than the requested #{}", s, m.latest(), q_hi));
                             } else if m.closed {
                                 run.violate2("C11", "C13", "pending-on-closed-channel", format!("receive in slot {} returned Pending on a closed channel", s));
                             }
@@ -449,7 +521,8 @@ fn run_m<M: RawMutex + 'static>(cfg: &Cfg, ops: &[Op], run: &mut Run) {
                 None => run.noops += 1,
             },
             OP_TRY => {
-                let (req, q) = m.seen[op.a as usize % m.seen.len()];
+                let (req, num) = m.request(op.a, foreign_mode);
+                let (q, q_hi) = m.bounds(num);
                 let r = run.call("try_receive()", || match chan {
                     Chan::B(c) => Some(c.try_receive(req)),
                     Chan::S { rx, .. } => rx.borrow().last().map(|r| r.try_receive(req)),
@@ -460,11 +533,13 @@ fn run_m<M: RawMutex + 'static>(cfg: &Cfg, ops: &[Op], run: &mut Run) {
                         match res {
                             Some((sid, t)) => {
                                 run.class(CL_TRY_SOME);
-                                delivered!(sid, t, q, req, "try_receive".to_string());
+                                delivered!(sid, t, num, req, "try_receive".to_string());
                             }
                             None => {
-                                if q < m.latest() {
-                                    run.violate("C13", "try_receive-missed", format!("try_receive returned None although publication #{} is newer than the requested #{}", m.latest(), q));
+                                if q_hi < m.latest() && m.closed {
+                                    run.violate2("C13", "C11", "try_receive-missed-after-close", format!("try_receive returned None on a closed channel although publication #{} is newer than the requested #{}", m.latest(), q_hi));
+                                } else if q_hi < m.latest() {
+                                    run.violate("C13", "try_receive-missed", format!("try_receive returned None although publication #{} is newer than the requested #{}", m.latest(), q_hi));
                                 } else {
                                     run.class(CL_TRY_NONE_UPTODATE);
                                 }
@@ -579,7 +654,7 @@ fn run_m<M: RawMutex + 'static>(cfg: &Cfg, ops: &[Op], run: &mut Run) {
                 run.class(CL_THREE_PENDING_WAKE_ALL);
             }
             let latest = m.latest();
-            if latest >= 0 && slots.iter().any(|s| s.alive() && !s.done && (s.num as i32 - 1) == latest - 1) {
+            if latest >= 0 && slots.iter().any(|s| s.alive() && !s.done && s.num < FOREIGN_BASE && (s.num as i32 - 1) == latest - 1) {
                 run.class(CL_CLOSE_FOLLOWER_BEHIND);
             }
         }
@@ -645,7 +720,7 @@ fn monitors<M: RawMutex + 'static>(chan: &Chan<M>, m: &Model, slots: &[Slot<RFut
     // no stranding: a pending receiver that can make progress has been woken
     for (i, s) in slots.iter().enumerate() {
         if s.pending() && !s.woken() {
-            let q = s.num as i32 - 1;
+            let (_, q) = m.bounds(s.num);
             if q < m.latest() {
                 run.violate("C13", "stranded-behind", format!("slot {} waits for something newer than publication #{}, publication #{} exists, and it has not been woken through its latest waker", i, q, m.latest()));
                 if run.failed() {
@@ -712,7 +787,7 @@ fn monitors<M: RawMutex + 'static>(chan: &Chan<M>, m: &Model, slots: &[Slot<RFut
         // requested publications relative to the latest one (0 = up to date, 1 = one behind, 2 = more)
         let rel = |q: i32| (latest - q).clamp(0, 2) as u8;
         for s in slots {
-            h.bytes(&[s.alive() as u8, s.polled as u8, s.done as u8, s.last_w, s.woken() as u8, if s.alive() { rel(s.num as i32 - 1) } else { 9 }]);
+            h.bytes(&[s.alive() as u8, s.polled as u8, s.done as u8, s.last_w, s.woken() as u8, if s.alive() { rel(m.bounds(s.num).0) } else { 9 }, if s.alive() { rel(m.bounds(s.num).1.min(latest + 3)) } else { 9 }, if s.alive() && s.num >= FOREIGN_BASE { (s.num - FOREIGN_BASE) as u8 + 1 } else { 0 }]);
         }
         for (_, p) in m.seen.iter() {
             h.u8(rel(*p));
